@@ -95,7 +95,7 @@ def missing_rule(repo: Repo, rep: Report, rid: str) -> None:
     call = repo.func("types/enum.py", "EnumMetaType.__call__")
     conv = [c for c in walk_body(call.node.body) if isinstance(c, ast.Call) and norm(c.func) == "cls.type"]
     sup = [c for c in walk_body(call.node.body) if isinstance(c, ast.Call) and isinstance(c.func, ast.Attribute) and isinstance(c.func.value, ast.Call)
-           and call_name(c.func.value) == "super" and [norm(a) for a in c.args] == ["value"]]
+           and call_name(c.func.value) == "super" and c.func.attr == "__call__" and len(c.args) == 1 and not c.keywords]
     rep.check(bool(sup), rid, f"{call.key}:value-lookup", "value looked up through EnumMeta.__call__(value) (-> _missing_)",
               "EnumMetaType.__call__ no longer looks the value up through the enum machinery", call.loc())
 
@@ -339,13 +339,17 @@ def factory_rule(repo: Repo, rep: Report, rid: str) -> None:
 def run(repo: Repo, rep: Report, tier: str) -> None:
     delegation_rule(repo, rep, "C12.R1")
     missing_rule(repo, rep, "C12.R2")
-    numbering_rule(repo, rep, "C12.R3")
+    from .c13 import token_parser_shape
+
+    token_parser_shape(repo, rep, numbering_rule, "C12.R3")
     equality_rule(repo, rep, "C12.R4")
     own_codec_rule(repo, rep, "C12.R5")
     factory_rule(repo, rep, "C12.R6")
     from .c10 import lookup_order_rule
 
-    lookup_order_rule(repo, rep, "C12.R7")
+    from .c10 import lookup_order_shared
+
+    lookup_order_shared(repo, rep, "C12.R7")
     from .memo import memo_rule
 
     memo_rule(repo, rep, "C12.R8")
@@ -375,3 +379,11 @@ def run(repo: Repo, rep: Report, tier: str) -> None:
 
     # member values written as expressions (A = 1 << 4, B = A | 3) are numbered by the expression evaluator
     expression_fold_rule(repo, rep, "C12.R18")
+    from .c06 import signed_unit_rule
+
+    # an enum bit-field: a member value wider than the field is refused when it is written, not OR-ed over the neighbouring field
+    signed_unit_rule(repo, rep, "C12.R19")
+    from .c13 import getattr_fold_rule
+
+    # members of an anonymous enum are constants of the cstruct object: cs.NAME is the member, whatever else is called NAME
+    getattr_fold_rule(repo, rep, "C12.R20")
